@@ -66,6 +66,7 @@ func runC16(r *engine.Run) {
 	r.Rule("LOCK-walk", "every node fetch of the trie (getNode) that is reachable from the operations that start at the trie's own root happens with the trie's mutex held (read or write): a walk holds the lock from reading the root to the last node, because writers physically remove replaced nodes. Named exception: IterateFrom starts from a node key supplied by the caller, reads no guarded state and is synchronised by its caller")
 	r.Rule("LOCK-snapshot", "SaveChanges takes its snapshot (ChangeCollector.Clone) with the trie's read lock held and writes from that snapshot, never from the live collector: one update is a sequence of AddChange calls that is atomic only under the trie lock; ChangeCollector.Clone copies every node it puts into the snapshot with CloneNode(); MerklePatriciaTrie.GetChanges reads the root, the changes and the deletes while it holds the trie's lock itself (one instant, not three separately locked getters)")
 	r.Rule("ORDER-critical", "Insert, Delete, MergeChanges and MergeDB acquire the trie's write lock before the first read of the root and keep it (deferred unlock) until after the last root update: each mutating operation is a single critical section")
+	r.Rule("LOCK-reentrant", "no Lock or RLock of a mutex is reachable while the same goroutine already holds that mutex of the same object: held-on-receiver facts (must-lockset inside a function) are carried into callees only along calls made on the same receiver value, over every call chain; sync mutexes are not reentrant (a second RLock deadlocks as soon as a writer queues up between the two)")
 	r.Rule("PAIR-unlock", "every Lock/RLock of a mutex is followed on every path to a return of the acquiring function by the matching Unlock/RUnlock on the same mutex or by a deferred one registered on the path: no operation returns with the lock held (every later operation on the object would block)")
 	r.NotDec = append(r.NotDec, "linearizability of histories (needs executions)", "SetVersion concurrent with operations (outside the property's operation set)")
 	const rule = "LOCK-mpt"
@@ -79,6 +80,7 @@ func runC16(r *engine.Run) {
 	cloneSnapshotDeep(r, "LOCK-snapshot")
 	lockOneSnapshot(r, "LOCK-snapshot")
 	pairUnlock(r, "PAIR-unlock", funcsOfPkg(r, pkgUtil), 10)
+	lockReentrant(r, "LOCK-reentrant", funcsOfPkg(r, pkgUtil), 20)
 }
 
 func orderCritical(r *engine.Run, w *engine.LockWorld) {
